@@ -221,6 +221,7 @@ func (obj *SparseReal32Vector) ReverseOrder() {
     index.indexInsert(j)
   }
   obj.values = values
+  obj.indexClear()
   obj.vectorSparseIndex = index
 }
 func (obj *SparseReal32Vector) Slice(i, j int) Vector {
@@ -477,7 +478,7 @@ func (obj *SparseReal32Vector) Permute(pi []int) error {
       }
     }
   }
-  obj.vectorSparseIndex = vectorSparseIndex{}
+  obj.indexClear()
   for i := 0; i < len(pi); i++ {
     obj.indexInsert(pi[i])
   }
@@ -510,7 +511,7 @@ func (obj *SparseReal32Vector) Sort(reverse bool) {
     ip = obj.n - len(obj.values)
   }
   obj.values = make(map[int]*Real32)
-  obj.vectorSparseIndex = vectorSparseIndex{}
+  obj.indexClear()
   if reverse {
     sort.Sort(sort.Reverse(r))
   } else {
